@@ -23,6 +23,9 @@ RULE = ("cases = (mode, N, L) one-level formal-PR obligations enumerated by TLC 
 
 def run(rep):
     if rep.tier == "thorough":
+        from .. import proofs
+        proofs.attach(rep, "DWT1Proofs")      # TLAPS: RoundTripLen, AnalysisSrcAll, SynthesisAll for ALL sizes
+    if rep.tier == "thorough":
         from .. import apalache
         apalache.shape_lemmas(rep)
     fnd = Findings()
